@@ -12,7 +12,7 @@ import (
 )
 
 func TestMain(m *testing.M) {
-	core.Main(m, "C03", "(a) a client byte stream (valid, surplus-carrying, truncated, oversized and malformed messages) delivered in one segment, one byte per read and 2..3 generated cut lists biased to cut inside headers: transcripts and callback traces must be identical; non-trivial = >= 3 messages and a cut strictly inside a 5-byte header. (b) messages with surplus bytes (Parse with parameter OIDs, trailing bytes that look like a complete next frame and carry a marker) vs the same sequence stripped: replies and callbacks equal, marker never reaches a callback; non-trivial = surplus of >= 5 bytes. (c) buffer.Reader accessor sequences on a message followed by a sentinel-filled message, against an independent cursor; non-trivial = a call crosses the end of the body. distinct = distinct canonical JSON per sub-check")
+	core.Main(m, "C03", "(a) a client byte stream (valid, surplus-carrying, truncated, oversized and malformed messages) delivered in one segment, one byte per read and 2..3 generated cut lists biased to cut inside headers: transcripts and callback traces must be identical; non-trivial = >= 3 messages and a cut strictly inside a 5-byte header. (b) messages with surplus bytes (Parse with parameter OIDs, trailing bytes that look like a complete next frame and carry a marker) vs the same sequence stripped: replies and callbacks equal, marker never reaches a callback; non-trivial = surplus of >= 5 bytes. (c) buffer.Reader accessor sequences on a message followed by a sentinel-filled message, against an independent cursor; non-trivial = a call crosses the end of the body. (d) a session that prepares a statement and binds a portal, then carries 0..380 KiB of ordinary messages (bodies 1..limit, limits 4 KiB..64 KiB) while 0..3 other clients connect, ask and leave, and only then uses the statement / portal, against the reference model; non-trivial = >= 64 KiB of traffic in between. distinct = distinct canonical JSON per sub-check")
 }
 
 var opts = gen.RichOpts{Malformed: true, Oversized: true, Copy: true, Auth: true}
@@ -165,6 +165,42 @@ func genC(t *rapid.T) CaseC {
 	return c
 }
 
+func genD(t *rapid.T) CaseD {
+	c := CaseD{}
+	c.Limit = rapid.SampledFrom([]int{4096, 16384, 65536, 65536}).Draw(t, "limit")
+	size := func(label string) int {
+		switch rapid.IntRange(0, 3).Draw(t, label+"-kind") {
+		case 0:
+			return rapid.IntRange(1, 100).Draw(t, label)
+		case 1:
+			return c.Limit - 1 - rapid.IntRange(0, 8).Draw(t, label)
+		}
+		return rapid.IntRange(1, c.Limit).Draw(t, label)
+	}
+	fill := func(label string, max int) (out []int) {
+		budget := rapid.IntRange(0, max).Draw(t, label+"-bytes")
+		for budget > 0 && len(out) < 400 {
+			n := size(label)
+			out = append(out, n)
+			budget -= n + 5
+		}
+		return
+	}
+	c.Pre = fill("pre", 80<<10)
+	c.Mid = fill("mid", 300<<10)
+	c.ParamLen = rapid.SampledFrom([]int{0, 10, 1500, 4000}).Draw(t, "param-len")
+	c.Use = rapid.SampledFrom([]string{"execute", "execute-twice", "describe-portal", "describe-stmt", "bind-again"}).Draw(t, "use")
+	nmsgs := len(c.Pre) + 3 + len(c.Mid)
+	for i, n := 0, rapid.IntRange(0, 3).Draw(t, "nvisitors"); i < n; i++ {
+		c.Visitors = append(c.Visitors, rapid.IntRange(0, nmsgs-1).Draw(t, "visitor-at"))
+	}
+	return c
+}
+
+func TestLongLived(t *testing.T) {
+	core.RunProp(t, "d", core.Scale(150), genD, RunD)
+}
+
 func TestSegmentation(t *testing.T) {
 	core.RunProp(t, "a", core.Scale(500), genA, RunA)
 }
@@ -215,4 +251,5 @@ func FuzzAccessors(f *testing.F) {
 
 func TestReplayA(t *testing.T) { core.Replay(t, map[string]func(CaseA) core.Result{"a": RunA}) }
 func TestReplayB(t *testing.T) { core.Replay(t, map[string]func(CaseB) core.Result{"b": RunB}) }
+func TestReplayD(t *testing.T) { core.Replay(t, map[string]func(CaseD) core.Result{"d": RunD}) }
 func TestReplayC(t *testing.T) { core.Replay(t, map[string]func(CaseC) core.Result{"c": RunC}) }
